@@ -68,17 +68,63 @@ Example C18_examples :
   write_int (2^2040) = None /\ read_int [253; 44] = Err ETrunc.
 Proof. vm_compute. repeat split; reflexivity. Qed.
 
-Definition ex_dag : list node := [NPrim TInt; NPrim TInt; NPrim TInt; NMux 0%nat [1%nat; 2%nat]; NDet [3%nat; 1%nat]].
+Definition ex_dag : list node := [NPrim TInt; NPrim TInt; NPrim TInt; NMux 0%nat [1%nat; 2%nat]; NDet [3%nat; 1%nat] [3%nat; 1%nat]].
 Definition ex_pval (i:nat) : val := match i with 0%nat => VInt 1 | 1%nat => VInt 300 | _ => VInt 7 end.
 Example C18_dag_example :
   wf_dag ex_dag /\ enc_sample ex_dag ex_pval [4%nat; 3%nat] = Some [1; 7; 253; 44; 1] /\
   dec_sample ex_dag [4%nat; 3%nat] [1; 7; 253; 44; 1] = OK ([(1%nat, VInt 300); (2%nat, VInt 7); (0%nat, VInt 1)], []).
 Proof.
   split; [|vm_compute; split; reflexivity].
-  intros i n H d Hd. unfold ex_dag in H.
-  do 5 (destruct i as [|i]; [simpl in H; inversion H; subst; simpl in Hd; repeat (destruct Hd as [<-|Hd]; [repeat constructor|]); try contradiction|]).
-  destruct i; discriminate.
+  split.
+  - intros i n H d Hd. unfold ex_dag in H.
+    do 5 (destruct i as [|i]; [simpl in H; inversion H; subst; simpl in Hd; repeat (destruct Hd as [<-|Hd]; [repeat constructor|]); try contradiction|]).
+    destruct i; discriminate.
+  - intros i es ds H. unfold ex_dag in H.
+    do 5 (destruct i as [|i]; [simpl in H; inversion H; subst; reflexivity|]).
+    destruct i; discriminate.
 Qed.
+
+(* ---- conditioning (Scenario.conditionOn, pruning): the two hypotheses of the round trip, separately.
+   [dag_ordered]: dependencies are numbered before their users.  [conditioned_consistent]: at every
+   deterministic node the encoder (Samplable.serializeValue) and the decoder (Samplable.deserializeValue)
+   walk the same dependency list — the code reads `self._conditioned._dependencies` at both places; the
+   exporter observes the two walks separately and the check decodes with the decoder's lists. *)
+Theorem C18_conditioned_roundtrip : forall g pval, dag_ordered g -> conditioned_consistent g -> forall deps bs rest,
+  enc_sample g pval deps = Some bs ->
+  exists pe, dec_sample g deps (bs ++ rest) = OK (pe, rest) /\ forall j v, plook j pe = Some v -> v = pval j.
+Proof. exact conditioned_roundtrip. Qed.
+Print Assumptions C18_conditioned_roundtrip.
+
+(* whatever has been conditioned to whatever ([cg]: every node with its own and its proxy's dependency list):
+   if encoder and decoder agree on following the proxy, the walks are consistent; the code as it is
+   ([code_view]: both follow it at deterministic nodes, primitive and multiplexer nodes ignore it) round-trips
+   and refuses every truncation *)
+Theorem C18_view_consistent : forall b cg, conditioned_consistent (map (view b b) cg).
+Proof. exact view_consistent. Qed.
+Print Assumptions C18_view_consistent.
+
+Theorem C18_code_view_roundtrip : forall cg pval, dag_ordered (map code_view cg) -> forall deps bs rest,
+  enc_sample (map code_view cg) pval deps = Some bs ->
+  exists pe, dec_sample (map code_view cg) deps (bs ++ rest) = OK (pe, rest) /\ forall j v, plook j pe = Some v -> v = pval j.
+Proof. exact code_view_roundtrip. Qed.
+Print Assumptions C18_code_view_roundtrip.
+
+Theorem C18_code_view_truncated : forall cg pval, dag_ordered (map code_view cg) -> forall deps bs p,
+  enc_sample (map code_view cg) pval deps = Some bs -> strict_prefix p bs -> exists e, dec_sample (map code_view cg) deps p = Err e.
+Proof. exact code_view_truncated. Qed.
+Print Assumptions C18_code_view_truncated.
+
+(* the hypothesis is needed (and this is also the non-vacuity example: a conditioned DAG that round-trips
+   under code_view): encoder following the proxy, decoder not => own encoding refused / silently misread *)
+Theorem C18_conditioned_inconsistent_refuted :
+  let cg := condition_to 1 [] ci_cg in
+  dag_ordered (map (view true false) cg) /\
+  enc_sample (map (view true false) cg) ci_pv [1%nat; 2%nat] = Some [9] /\
+  dec_sample (map (view true false) cg) [1%nat; 2%nat] [9] = Err ETrunc /\
+  dec_sample (map code_view cg) [1%nat; 2%nat] [9] = OK ([(2%nat, VInt 9)], []) /\
+  (exists pe, dec_sample (map (view true false) cg) [1%nat; 2%nat] [9; 9] = OK (pe, []) /\ plook 0%nat pe = Some (VInt 9) /\ ci_pv 0%nat = VInt 5).
+Proof. exact conditioned_inconsistent_refuted. Qed.
+Print Assumptions C18_conditioned_inconsistent_refuted.
 
 (* ===================== the replay stream (coq/C18/Replay.v) ===================== *)
 
@@ -176,7 +222,9 @@ Example C18_replay_example :
            [2; 0; 1; 0; 0; 0; 253; 44; 1; 0; 0; 0; 0; 0; 0; 240; 63; 253; 45; 1] ex_w) = Diverged.
 Proof.
   assert (Hg : wf_dag ex_g).
-  { intros i n H d Hd. destruct i as [|[|i]]; cbn in H; inversion H; subst; cbn in Hd; contradiction. }
+  { split.
+    - intros i n H d Hd. destruct i as [|[|i]]; cbn in H; inversion H; subst; cbn in Hd; contradiction.
+    - intros i es ds H. destruct i as [|[|i]]; cbn in H; inversion H. }
   split.
   { constructor; [exact Hg|]. intros _. constructor; [cbn; discriminate|].
     constructor; [exact Hg|]. intros _. constructor. }
